@@ -123,12 +123,16 @@ def check(ctx):
         pos = dg.rvalue(body.single_def(cur[0][1]["dst"]["l"]), 0)
         cmps = [(b, D.cmp_of_switch(body, dg, b)) for b in sorted(body.reachable) if D.cmp_of_switch(body, dg, b)]
         found = None
+        cands = []
         for (b, c) in cmps:
             op, x, y, tt, ft = c
             cop, lo, hi = D.canon_cmp(op, x, y)
             # empty iff tail <= cursor   (cursor >= tail)
-            if cop == "le" and norm(strip_casts(hi)) == norm(pos): found = (b, strip_casts(lo), tt, ft)
-            elif cop == "lt" and norm(strip_casts(lo)) == norm(pos): found = (b, strip_casts(hi), ft, tt)   # cursor < tail: non-empty on true
+            if cop == "le" and norm(strip_casts(hi)) == norm(pos): cands.append((b, strip_casts(lo), tt, ft))
+            elif cop == "lt" and norm(strip_casts(lo)) == norm(pos): cands.append((b, strip_casts(hi), ft, tt))   # cursor < tail: non-empty on true
+        if cands:
+            # the bound test is the outermost one; later comparisons of the same two values (a `debug_assert!(head < tail)` on the non-empty path) restate it
+            found = min(cands, key=lambda x_: len(body.dom[x_[0]]))
         if not found:
             ctx.ob("R09.3", f"{k}|bound-test", False, site, "no comparison of the cursor with a tail found"); continue
         b, tail, empty_t, item_t = found
